@@ -45,8 +45,11 @@ def run_mutant(slot, name, props, edits):
             return res
         open(p, "w").write(s.replace(old, new))
     # baseline tests, guard off
-    rc, out = sh("cargo test --workspace --no-fail-fast --offline 2>&1 | grep -E '^test result|^error|FAILED|failed' | head -20",
+    # a mutant may make one of the repository's tests spin: bound it (a timeout counts as "fails")
+    rc, out = sh("timeout -k 5 400 cargo test --workspace --no-fail-fast --offline 2>&1 | grep -E '^test result|^error|FAILED|failed' | head -20",
                  cwd=f"{d}/repo", env={"CARGO_TARGET_DIR": f"{d}/target-tests", "RUSTFLAGS": ""})
+    if "test result" not in out and "error" not in out:
+        out += "\nFAILED (timeout)"
     if "error" in out and "test result" not in out:
         res["status"] = "does-not-compile"
         res["detail"] = out[-400:]
@@ -88,7 +91,7 @@ def worker(slot, q, results):
 def main():
     q = queue.Queue()
     for item in M:
-        if only and only not in item[0]:
+        if only and not any(o in item[0] for o in only.split(",")):
             continue
         q.put(item)
     results = []
@@ -99,6 +102,11 @@ def main():
         t.start()
     for t in threads:
         t.join()
+    # merge with earlier results when only a subset was run
+    if only and os.path.exists("/verif/selftest/results.json"):
+        old = json.load(open("/verif/selftest/results.json"))
+        names = {r["name"] for r in results}
+        results.extend(r for r in old if r["name"] not in names and r["name"] in [m[0] for m in M])
     results.sort(key=lambda r: [m[0] for m in M].index(r["name"]))
     json.dump(results, open("/verif/selftest/results.json", "w"), indent=1)
     with open("/verif/selftest/RESULTS.md", "w") as f:
